@@ -22,6 +22,12 @@ func register(id string, f CheckFunc) {
 			r.Rule("ERR-DISPOSITION", "every call whose error the reference tree returns from all of its call sites in a function (errdisp.json, frozen with anchors.json) still has its error returned there — on the current tree after renames were followed and new helpers expanded; sites = fallible calls in the static call trees of this property's entry points", 1)
 			checkErrDisposition(p, r, "ERR-DISPOSITION")
 		}
+		if ownsErrTolerance(id) {
+			r.Rule("ERR-TOLERANCE", "where the reference tree returns every error of a call except a named package-level sentinel, that sentinel is still tolerated there (or by every caller of the function) as long as the callee can produce it (errdisp.json)", 1)
+			checkErrTolerance(p, r, "ERR-TOLERANCE")
+			r.Rule("CAUSE-TRANSPARENT", "no fmt.Errorf in the owned call trees takes an error value: errors.Cause, which every sentinel test uses, sees through github.com/pkg/errors wrappers only", 1)
+			checkCauseTransparent(p, r, "CAUSE-TRANSPARENT")
+		}
 		if ownsLockCover(id) {
 			r.Rule("LOCK-COVER", "every access to a mutable field of this property's structs holds the locks the reference tree holds at every access of that field in that function (lockcover.json, frozen with anchors.json): reads in any mode, writes exclusively; objects under construction excepted", 1)
 			checkLockCover(p, r, "LOCK-COVER")
